@@ -29,7 +29,7 @@ NO_COPY = {'SpatialVelocity', 'SpatialAcceleration', 'SpatialForce', 'SpatialMom
 PAIRS = [('SO3', 'SE3'), ('SO2', 'SE2'), ('Quaternion', 'UnitQuaternion'),
          ('Twist2', 'Twist3'), ('SpatialVelocity', 'SpatialAcceleration'),
          ('SpatialForce', 'SpatialMomentum'), ('Plucker', 'Twist3')]
-MAX_LEN = 72            # operations that would make an object longer are skipped
+MAX_LEN = 400           # operations that would make an object longer are skipped
 LITS = ['ndarray', 'list_of_ndarray', 'none', 'scalar', 'tuple', 'str', 'numlist']
 
 # X([y1..yn]) with items of another class that the constructor documents as a conversion
@@ -98,7 +98,27 @@ def elem_value(cname, k):
 
 def special_value(cname, j):
     """Boundary members of each class: identities, half turns, zero vectors, pure translations."""
-    j = int(j) % 3
+    j = int(j) % 4
+    if j == 3:
+        # components far below one ulp of 1.0 next to nothing larger: exact values, not round-off
+        tiny = {'Quaternion': [1e-15, -2e-15, 0.0, 3e-15], 'Twist2': [1e-15, -2e-15, 3e-15],
+                'Twist3': [1e-15, -2e-15, 0.0, 0.0, 0.0, 3e-15],
+                'Plucker': [1e-15, -2e-15, 0.0, 0.0, 0.0, 3e-15],
+                'SpatialVelocity': [1e-15, -2e-15, 0.0, 0.0, 0.0, 3e-15],
+                'SpatialAcceleration': [1e-15, -2e-15, 0.0, 0.0, 0.0, 3e-15],
+                'SpatialForce': [1e-15, -2e-15, 0.0, 0.0, 0.0, 3e-15],
+                'SpatialMomentum': [1e-15, -2e-15, 0.0, 0.0, 0.0, 3e-15]}
+        if cname in tiny:
+            return np.array(tiny[cname])
+        if cname == 'SE2':
+            T = np.eye(3)
+            T[:2, 2] = [1e-15, -3e-15]
+            return T
+        if cname == 'SE3':
+            T = np.eye(4)
+            T[:3, 3] = [1e-15, 0.0, -3e-15]
+            return T
+        j = 1
     if cname == 'SO2':
         return [np.eye(2), np.array([[-1.0, 0.0], [0.0, -1.0]]), np.array([[0.0, -1.0], [1.0, 0.0]])][j]
     if cname == 'SE2':
@@ -159,7 +179,11 @@ def value_matches(arr, elem):
         return True
     if arr.dtype.kind not in 'fiu':
         return False
-    return bool(np.allclose(arr, elem.value, rtol=1e-9, atol=1e-9))
+    # tolerance relative to the magnitude of the element (UnitQuaternion re-normalises on
+    # indexing, nothing else differs in a single bit today): a component of 1e-15 in an element
+    # whose largest component is 3e-15 is a value, not noise
+    scale = float(np.max(np.abs(elem.value))) if elem.value.size else 0.0
+    return bool(np.allclose(arr, elem.value, rtol=1e-9, atol=1e-12 * scale))
 
 
 def describe(arr):
@@ -267,7 +291,7 @@ class World:
         if n != len(o.model) or len(data) != len(o.model):
             self.fail('state', where=where, why='length differs from reference list',
                       cls=o.cname, observed=n, expected=len(o.model),
-                      expected_tags=[e.tag for e in o.model])
+                      expected_tags=[e.tag for e in o.model][:12])
         for i, (a, e) in enumerate(zip(data, o.model)):
             if not value_matches(a, e):
                 self.fail('state', where=where, why='element differs from reference list',
@@ -312,6 +336,8 @@ class World:
                     self.probe('p_op_on_len_ge_17')
                 if m >= 33:
                     self.probe('p_op_on_len_ge_33')
+                if m >= 129:
+                    self.probe('p_op_on_len_ge_129')
         if op != 'drop':
             self.recent = (getattr(self, 'recent', ()) + (op,))[-3:]
             self.stats.setdefault('op_bigrams', set()).add(self.recent[-2:])
@@ -755,7 +781,7 @@ def gen_config(rng, classes_pool=None):
     rate = rng.choice([0.0, 0.0, 0.1, 0.25, 0.5])
     if not kinds:
         rate = 0.0
-    return {
+    cfg = {
         'classes': cl,
         'fault_rate': rate,
         'fault_kinds': kinds,
@@ -764,9 +790,14 @@ def gen_config(rng, classes_pool=None):
         'heap_cap': rng.choice([3, 5, 8]),
         'init_objs': rng.choice([1, 1, 2, 3]),
         'full_domain_index': rng.random() < 0.5,
-        'scale': rng.choice([1, 1, 1, 1, 1, 4, 8]),
+        'scale': rng.choice([1, 1, 1, 1, 1, 1, 4, 8, 40]),
         'special_rate': rng.choice([0.0, 0.0, 0.3, 1.0]),
     }
+    if cfg['scale'] >= 40:          # very long lists: few objects, few steps
+        cfg['steps'] = min(cfg['steps'], 8)
+        cfg['heap_cap'] = 3
+        cfg['init_objs'] = 1
+    return cfg
 
 
 def _weights(cfg):
@@ -815,7 +846,7 @@ def gen_init(cfg, rng):
 def _new_rec(c, n, cfg, rng):
     rec = {'op': 'new', 'cls': c, 'n': n}
     if rng.random() < cfg.get('special_rate', 0.0):
-        rec['special'] = rng.randrange(3)
+        rec['special'] = rng.randrange(4)
     return rec
 
 
